@@ -1,6 +1,7 @@
 pub mod store;
 pub mod session;
 pub mod sync;
+pub mod counter;
 pub mod das;
 pub mod prune;
 pub mod hdr;
